@@ -179,6 +179,8 @@ class CacheWorld(W.World):
         self.old_states = []       # states replaced on their group, kept by an undo stack or a script
         self.listener = None
         self.fresh_violation = None
+        self.vmodel = {}
+        self.written = None
 
     def tracked_states(self):
         out = [g.subset_state for g in self.dc.subset_groups] + self.free + self.old_states
@@ -345,6 +347,7 @@ def apply_op(w, op, res, reading, skip=False):
                     arr = w.last_arr
                     res.probe('array_shared_between_datasets')
                 w.last_arr = arr
+                w.written = d
                 d.update_components({cid: arr})
     elif k == 'upd_src':
         # the owner of a dataset that another one was refreshed from goes on modifying it
@@ -407,6 +410,7 @@ def apply_op(w, op, res, reading, skip=False):
                 del w.sources[:-3]
             if shape != d.shape:
                 res.probe('shape_change_after_read')
+            w.written = d
             d.update_values_from_data(other)
     elif k == 'new_group':
         dc.new_subset_group(subset_state=w.build_state(op[1]))
@@ -491,6 +495,7 @@ def apply_op(w, op, res, reading, skip=False):
         d = w.pick_data(op[1])
         if d is not None:
             w.nx += 1
+            w.written = d
             d.add_component(W.values(op[2], d.shape), 'x%d' % w.nx)
     elif k == 'add_link':
         d1, d2 = w.pick_data(op[1]), w.pick_data(op[3])
@@ -757,6 +762,21 @@ def run_world(case, res, upto, reading, tmp, decisions):
                 out = 'error:%s' % type(e).__name__
             if reading and out == 'guarded':
                 decisions[i] = 'guarded'
+            if reading and w.hv is not None:
+                # the viewer evaluates every selection of its dataset as soon as it hears of it
+                for g in w.dc.subset_groups:
+                    w.mark_read(g.subset_state)
+            if reading:
+                if op[0] in ('new', 'new_file', 'upd', 'upd_from', 'add_comp', 'advance', 'rewrite', 'vanish'):
+                    for d in w.pool:
+                        if op[0] in ('new', 'new_file') and id(d) in w.vmodel:
+                            continue
+                        if op[0] in ('upd', 'upd_from', 'add_comp') and d is not w.written:
+                            continue
+                        if op[0] in ('advance', 'rewrite', 'vanish') and not any(f[1] is d for f in w.files):
+                            continue
+                        sync_model(w, d)
+                check_values(w, op, res)
             if reading:
                 res.nops += 1
                 res.log.append([i, op[0], out])
@@ -784,6 +804,29 @@ def run_world(case, res, upto, reading, tmp, decisions):
         auto_refresh(False)
         for t in list(clock.heap):
             t[2].active = False
+
+
+def sync_model(w, d):
+    """Record what the last write to ``d`` made of its stored attributes."""
+    w.vmodel[id(d)] = (d, dict((c.label, np.array(d.get_component(c).data)) for c in d.main_components))
+
+
+def check_values(w, op, res):
+    """Writes are isolated: the stored attributes of every dataset hold what the last write *to that dataset* put there
+    (a write to another dataset that shares array objects with it must not show through)."""
+    for d, cols in list(w.vmodel.values()):
+        for c in d.main_components:
+            exp = cols.get(c.label)
+            if exp is None:
+                continue
+            got = np.asarray(d.get_component(c).data)
+            res.nchecks += 1
+            same = got.shape == exp.shape and (np.array_equal(got, exp) or (
+                got.dtype.kind == 'f' and exp.dtype.kind == 'f' and bool(np.all((got == exp) | (np.isnan(got) & np.isnan(exp))))))
+            if not same:
+                raise Violation('C05/values-changed-without-a-write/%s' % op[0],
+                                'dataset %s attribute %s holds %s, the last write to this dataset put %s' % (
+                                    d.label, c.label, got.ravel()[:6].tolist(), exp.ravel()[:6].tolist()))
 
 
 def check_fresh_copies(w, meta, res):
